@@ -403,12 +403,11 @@ class UBXReader:
                 raise UBXParseError(
                     (f"Invalid message header {hdr}" f" - should be {UBX_HDR}")
                 )
-            if leni != bytes2val(lenb, U2):
+            lenp = lenm - 8  # actual payload length
+            if lenp != bytes2val(lenb, U2):
+                lenx = val2bytes(lenp, U2) if 0 <= lenp <= 0xFFFF else lenp
                 raise UBXParseError(
-                    (
-                        f"Invalid payload length {lenb}"
-                        f" - should be {val2bytes(leni, U2)}"
-                    )
+                    (f"Invalid payload length {lenb}" f" - should be {lenx}")
                 )
             if ckm != ckv:
                 raise UBXParseError(
